@@ -202,8 +202,9 @@ int main(int argc, char **argv) {
     int min_dim = (int) A.geti("min-dim", 0), min_m = (int) A.geti("min-m", 0), max_m = (int) A.geti("max-m", 62);
     int orient_mode = (int) A.geti("orient", 0);
     vg::plus_heavy_k2() = A.has("plus-heavy-k2");
+    vg::edge_order_mode() = (int) A.geti("eorder", 0);
     auto unit_graph0 = [&](uint64_t u) { uint64_t uu = ((u / wchunks) + seed) % ngraphs; return fams.empty() ? vg::graph_from_mask(n, uu) : vg::relabel(vg::family(fams[uu / relabel_n]), (int) (uu % relabel_n)); };
-    auto unit_graph = [&](uint64_t u) { vg::EdgeList g = unit_graph0(u); vg::orient(g, orient_mode); if (vg::plus_heavy_k2()) { g.e.push_back({g.n, g.n + 1}); g.n += 2; } return g; };
+    auto unit_graph = [&](uint64_t u) { vg::EdgeList g = unit_graph0(u); vg::order_edges(g); vg::orient(g, orient_mode); if (vg::plus_heavy_k2()) { g.e.push_back({g.n, g.n + 1}); g.n += 2; } return g; };
     auto describe = [&](uint64_t u, uint64_t sub, uint64_t) { vg::EdgeList el = unit_graph(u); std::vector<double> w; vg::weighting(alpha, el.m(), sub, w); return std::make_pair(std::string("mpi entry point"), vg::case_string(el, w)); };
     auto work = [&](uint64_t u, uint64_t start_sub) {
         vg::EdgeList el = unit_graph(u);
